@@ -1,6 +1,7 @@
 package main
 
 import (
+	"os/exec"
 	"golang.org/x/tools/go/ssa"
 	"encoding/json"
 	"fmt"
@@ -292,6 +293,28 @@ func runCheck(root string, args []string) int {
 	if nObl == 0 && violations == 0 {
 		report("vacuity", "no obligation was generated for this property (vacuous check)", "", "", "", true)
 	}
+	// thorough tier: bounded validation of A-KEYS on the real key builders/parsers (never counted as proved)
+	var bounded []map[string]interface{}
+	if _, usesKeys := E.Used["A-KEYS"]; usesKeys && tier == "thorough" {
+		res := runKeyLayer(root, vd)
+		bounded = append(bounded, map[string]interface{}{
+			"name": "bounded:A-KEYS key layer (keylayer/zz_keylayer_test.go on the real x/alliance/types/keys.go)",
+			"bound": "12 denoms x 12 addresses (1..32 bytes) x 10 times x 9 heights; 6 facts: injective constructors / disjoint families, parsers = projections, prefix scans, suffix match, chronological end-exclusive ranges, family prefixes",
+			"status": res.status, "seconds": res.secs, "failed_facts": res.failed,
+		})
+		if res.status == "failed" {
+			violations++
+			dir := filepath.Join(vd, "replays", prop)
+			os.MkdirAll(dir, 0o755)
+			path := filepath.Join(dir, "bounded_A-KEYS_key_layer.json")
+			jsonOut(path, map[string]interface{}{"property": prop, "obligation": "bounded:A-KEYS", "replayed": true,
+				"reason": "the real key builders/parsers violate a fact the algebraic key model assumes; the failing inputs are in the test output",
+				"failed_facts": res.failed, "output": res.out, "rerun": "cd /repo && go test -overlay <{\"Replace\":{\"/repo/x/alliance/types/zz_keylayer_test.go\":\"/verif/keylayer/zz_keylayer_test.go\"}}> -vet=off -run TestKeyLayer ./x/alliance/types/"})
+			vioLines = append(vioLines, fmt.Sprintf("VIOLATION property=%s replay=%s obligation=bounded:A-KEYS (%s: the algebraic key model does not describe the real keys.go)", prop, path, strings.Join(res.failed, ",")))
+		} else if res.status != "passed" {
+			fmt.Println("NOTE: bounded A-KEYS validation could not run:", res.status)
+		}
+	}
 	var trusted []string
 	var assumptions []string
 	var ids []string
@@ -330,6 +353,7 @@ func runCheck(root string, args []string) int {
 			"trusted_contracts":        trustedContracts,
 			"solver_ms_total":          solverMs,
 			"vacuity_checks":           vac,
+			"bounded_checks":           bounded,
 			"dropped_by_extraction":    "event emission, logging, telemetry, iterator Close, gas metering, error message text, context plumbing, protobuf wire format, bech32 text, big.Int bit widths (DESIGN.md 3.8)",
 			"integers":                 "mathematical (A-OVF); LegacyDec per obligation reading U/E/R",
 		},
@@ -348,6 +372,66 @@ func runCheck(root string, args []string) int {
 		return 1
 	}
 	return 0
+}
+
+type keyLayerResult struct {
+	status string // passed | failed | <why it could not run>
+	failed []string
+	out    string
+	secs   float64
+}
+
+// runKeyLayer runs keylayer/zz_keylayer_test.go against the working tree's x/alliance/types through `go test -overlay`.
+func runKeyLayer(root, vd string) keyLayerResult {
+	t0 := time.Now()
+	src := filepath.Join(vd, "keylayer", "zz_keylayer_test.go")
+	if _, err := os.Stat(src); err != nil {
+		if _, err2 := os.Stat("/verif/keylayer/zz_keylayer_test.go"); err2 == nil {
+			src = "/verif/keylayer/zz_keylayer_test.go"
+		} else {
+			return keyLayerResult{status: "keylayer test file missing"}
+		}
+	}
+	ov, err := os.CreateTemp("", "gvc-ov-*.json")
+	if err != nil {
+		return keyLayerResult{status: err.Error()}
+	}
+	defer os.Remove(ov.Name())
+	fmt.Fprintf(ov, "{\"Replace\": {%q: %q}}\n", filepath.Join(root, "x/alliance/types/zz_keylayer_test.go"), src)
+	ov.Close()
+	cmd := exec.Command("go", "test", "-overlay", ov.Name(), "-vet=off", "-count=1", "-timeout", "600s", "-run", "TestKeyLayer", "./x/alliance/types/")
+	cmd.Dir = root
+	cmd.Env = append(os.Environ(), "GOFLAGS=-mod=mod", "GOPROXY=off", "GOSUMDB=off", "GOTOOLCHAIN=local")
+	b, err := cmd.CombinedOutput()
+	out := string(b)
+	res := keyLayerResult{out: out, secs: time.Since(t0).Seconds()}
+	if err == nil && strings.Contains(out, "ok ") {
+		res.status = "passed"
+		return res
+	}
+	for _, l := range strings.Split(out, "\n") {
+		l = strings.TrimSpace(l)
+		if strings.HasPrefix(l, "--- FAIL: TestKeyLayer/") {
+			res.failed = append(res.failed, strings.Fields(strings.TrimPrefix(l, "--- FAIL: TestKeyLayer/"))[0])
+		}
+	}
+	if len(res.failed) > 0 {
+		res.status = "failed"
+	} else {
+		res.status = "could not build or run: " + firstLine(out)
+		if strings.Contains(out, "FAIL") && strings.Contains(out, "build failed") || strings.Contains(out, "cannot") {
+			res.status = "failed"
+			res.failed = []string{"does-not-build"}
+		}
+	}
+	return res
+}
+
+func firstLine(s string) string {
+	if i := strings.Index(s, "\n"); i >= 0 {
+		return s[:i]
+	}
+	return s
 }
 
 var _ = strings.TrimSpace
